@@ -115,7 +115,7 @@ def set_at(v, path, new):
 HOSTILE_NUMBERS = [10 ** 400, -10 ** 400, 2 ** 1024, {"$": "float", "s": "inf"}, {"$": "float", "s": "-inf"}, {"$": "float", "s": "nan"},
                    1e308, -1e308, 10 ** 14, 86400000000000, -86399999913601, 2 ** 63, {"$": "dec", "s": "1E+400"},
                    {"$": "dec", "s": "NaN"}, {"$": "dec", "s": "Infinity"}, {"$": "dec", "s": "sNaN"}, 1e14, 253402300800, -62135596801]
-HOSTILE_STRINGS = ["1/0", "1e999", "nan", "inf", "-inf", "Infinity", "1" * 400, "1e400", "é", "\ud800", "１２", "0x10", "1_000", " 1",
+HOSTILE_STRINGS = ["sNaN", "-sNaN", "NaN", "1/0", "1e999", "nan", "inf", "-inf", "Infinity", "1" * 400, "1e400", "é", "\ud800", "１２", "0x10", "1_000", " 1",
                    "9999-99-99", "0000-01-01", "24:00:00", "2020-02-30", "12345678123456781234567812345678", "1.2.3.4/33", "::1/129",
                    "[", "(?P<x>", "a" * 300, "====", "YQ", "\x00"]
 LOOKALIKE = [(0, False), (1, True), (False, 0), (True, 1), (1, 1.0), (1.0, 1), (0, 0.0), (1, "1"), ("1", 1), (None, "None"),
